@@ -236,6 +236,63 @@ fn spellings(rng: &mut Rng, v: &Val, t: &Ty, d: &Defs) -> String {
     }
 }
 
+fn count_ints(v: &Val) -> usize {
+    match v {
+        Val::Int(_) => 1,
+        Val::Bool(_) => 0,
+        Val::Array(xs) | Val::Tuple(xs) | Val::Struct(xs) => xs.iter().map(count_ints).sum(),
+        Val::Enum(_, p) => p.iter().map(count_ints).sum(),
+    }
+}
+
+/// Canonical text of `v` in which the `target`-th integer leaf is replaced by `f(its type)`.
+fn text_with_number(v: &Val, t: &Ty, d: &Defs, target: usize, seen: &mut usize, f: &mut dyn FnMut(crate::ints::IntTy) -> String) -> String {
+    match (v, t) {
+        (Val::Bool(b), _) => b.to_string(),
+        (Val::Int(x), Ty::Int(it)) => {
+            *seen += 1;
+            if *seen - 1 == target {
+                f(*it)
+            } else {
+                it.lit(*x)
+            }
+        }
+        (Val::Array(es), Ty::Array(et, _)) => format!("[{}]", es.iter().map(|e| text_with_number(e, et, d, target, seen, f)).collect::<Vec<_>>().join(", ")),
+        (Val::Tuple(fs), Ty::Tuple(ts)) => format!("({})", fs.iter().zip(ts).map(|(x, t)| text_with_number(x, t, d, target, seen, f)).collect::<Vec<_>>().join(", ")),
+        (Val::Struct(fs), Ty::Struct(i)) => {
+            let sd = &d.structs[*i];
+            format!("{} {{ {} }}", sd.name, fs.iter().zip(&sd.fields).map(|(x, (n, t))| format!("{n}: {}", text_with_number(x, t, d, target, seen, f))).collect::<Vec<_>>().join(", "))
+        }
+        (Val::Enum(var, payload), Ty::Enum(i)) => {
+            let ed = &d.enums[*i];
+            let (vn, pts) = &ed.variants[*var];
+            if pts.is_empty() {
+                format!("{}::{}", ed.name, vn)
+            } else {
+                format!("{}::{}({})", ed.name, vn, payload.iter().zip(pts).map(|(p, t)| text_with_number(p, t, d, target, seen, f)).collect::<Vec<_>>().join(", "))
+            }
+        }
+        _ => panic!("harness: value/type mismatch"),
+    }
+}
+
+/// A number text that denotes no value of the integer type `it` (as decimal digits the scanner may or
+/// may not accept; with the type's own suffix or without one).
+fn out_of_range_number(rng: &mut Rng, it: crate::ints::IntTy) -> String {
+    let mut cands: Vec<i128> = vec![it.max_val() + 1, it.min_val() - 1, it.max_val() + 2];
+    for c in [1i128 << 31, 1i128 << 32, (1i128 << 63) - 1, 1i128 << 63, (1i128 << 63) + 1, (1i128 << 64) - 1, 1i128 << 64, -(1i128 << 63) - 1, -(1i128 << 31) - 1, -1, -129, 256, 65536] {
+        if !it.fits(c) {
+            cands.push(c);
+        }
+    }
+    let n = *rng.pick(&cands);
+    if rng.bool() {
+        format!("{n}{}", it.name())
+    } else {
+        n.to_string()
+    }
+}
+
 /// One random corruption / alternative form somewhere inside a canonical literal.
 fn mutate_literal(rng: &mut Rng, l: &Literal, t: &Ty, d: &Defs) -> (Literal, &'static str) {
     // pick a node: with some probability descend
@@ -570,6 +627,31 @@ fn check_type(ctx: &Ctx, rng: &mut Rng, st: &mut St) {
                     }
                 };
                 st.counts.inc(&format!("{api}: {what}: {class}"));
+            }
+        }
+        // ---- canonical text with one number replaced by a number that does not fit its type: the
+        //      text denotes no value of the type and must be refused (not wrapped or truncated)
+        let n_ints = count_ints(&v);
+        for _ in 0..(if n_ints > 0 { 3 } else { 0 }) {
+            let target = rng.usize_below(n_ints);
+            let mut chosen = String::new();
+            let bad = text_with_number(&v, &t, &d, target, &mut 0, &mut |it| {
+                chosen = out_of_range_number(rng, it);
+                chosen.clone()
+            });
+            match catch(|| prg.parse_arg(0, &bad).map(|a| a.as_literal())) {
+                Err(p) => {
+                    fail(&format!("parse_arg panicked on a text with an out-of-range number: {p}"), json!({"text": bad}));
+                    return;
+                }
+                Ok(Err(_)) => st.counts.inc("parse_arg(text): number outside the range of its type: refused"),
+                Ok(Ok(parsed)) => {
+                    fail(
+                        "parse_arg accepts a text in which a number does not fit its type (the text denotes no value)",
+                        json!({"text": bad, "number": chosen, "parsed": format!("{parsed:?}").chars().take(400).collect::<String>(), "type": t.show(&d)}),
+                    );
+                    return;
+                }
             }
         }
         // ---- the printed text of corrupted / alternative literals through the text API: whatever
